@@ -257,7 +257,9 @@ def seg_counts(c):
     """how many segments each direction needs (by the library's own slicing rule: payload / max-APDU of the receiver)"""
     def count(n, size):
         ln = service_data_len(n)
-        return max(1, -(-ln // size))
+        if ln <= size - 4:
+            return 1
+        return max(1, -(-ln // max(1, size - 6)))
     req_size = min(c["c_apdu"], c["s_apdu"]) if c["know"] else c["c_apdu"]
     return count(c["req_len"], req_size), count(c["rsp_len"], min(c["c_apdu"], c["s_apdu"]))
 
